@@ -2316,10 +2316,14 @@ class Walker:
         return self.expr(e.value, st)
 
     def e_Slice(self, e, st):
-        nodes = [x for x in (e.lower, e.upper, e.step) if x is not None]
+        parts = (e.lower, e.upper, e.step)
+        nodes = [x for x in parts if x is not None]
         cur, outs = self.seq(nodes, st)
         for s, ts in cur:
-            outs.append((s, "val", ("lit", "slice", tuple(ts), None)))
+            # positions are kept (x[1:] and x[:1] are different values): an absent bound is None
+            it = iter(ts)
+            full = tuple(next(it) if x is not None else C(None) for x in parts)
+            outs.append((s, "val", ("lit", "slice", full, None)))
         return outs
 
     def e_Compare(self, e, st):
